@@ -89,6 +89,18 @@ pub fn run(case: &Value) -> Value {
                 }
                 Some(Ok(_)) => json!("other"),
             },
+            // a variant looked up INSIDE an enum type of the class: arg = "E.v" (scoped enums only answer)
+            "evariant" => {
+                let (en, vn) = arg.split_once('.').unwrap();
+                match c.get_type(en) {
+                    Some(Ok(NamedType::Enum(e))) => match e.get_enum_by_variant(vn) {
+                        None => Value::Null,
+                        Some(Err(_)) => json!("err"),
+                        Some(Ok(e2)) => json!([e2.lexical_parent().map(|p| p.name().to_owned()), e2.name()]),
+                    },
+                    _ => json!("noenum"),
+                }
+            }
             "variant" => match c.get_enum_by_variant(arg) {
                 None => Value::Null,
                 Some(Err(_)) => json!("err"),
